@@ -293,6 +293,8 @@ def run(ctx):
     # vs the independent Python builders
     import info_tie_a
     info_tie_a.run(ctx)
+    import info_tie_b
+    info_tie_b.run(ctx)
 
 
 def search(ctx):
